@@ -12,6 +12,7 @@ from copy import deepcopy
 import numpy as np
 
 from .kernel import HarnessError
+from .fp import fp_any
 from .gen import norm, normlist
 from . import gen
 
@@ -216,6 +217,7 @@ class DataOps:
                                 return rep('assoc', f'cell obs {o} channel {c} time {t} at ({i},{j},{k}) is {m[i, j, k]!r}, source value {exp}')
         # descriptors
         drop = set(sem.get('dropped', ()))
+        remap = sem.get('remap') or {}        # group names re-assigned by the user on this object (or an ancestor)
         for i, (o, tr) in enumerate(rows):
             exp = dict(self.obs_tab.get(o, {}))
             if tr is not None:
@@ -223,6 +225,8 @@ class DataOps:
             for k, v in exp.items():
                 if ('obs', k) in drop:
                     continue
+                if ('obs', k) in remap:
+                    v = remap[('obs', k)].get(norm(v), v)
                 if k not in obj.obs_descriptors:
                     if k in obj.descriptors and norm(obj.descriptors[k]) == norm(v):
                         continue      # constant over rows: may legitimately live at dataset level
@@ -236,6 +240,8 @@ class DataOps:
             for k, v in exp.items():
                 if ('channel', k) in drop:
                     continue
+                if ('channel', k) in remap:
+                    v = remap[('channel', k)].get(norm(v), v)
                 if k not in obj.channel_descriptors:
                     return rep('descriptors', f'channel descriptor {k!r} lost')
                 if norm(obj.channel_descriptors[k][j]) != norm(v):
@@ -480,6 +486,55 @@ class DataOps:
         fn(o1)
         self.ctx.probe('redo_after_sort')
 
+    def op_redo_after_relabel(self, o):
+        """a selection / split by a grouping descriptor, then the user re-assigns that descriptor's values on the same
+        object (the group names swap places), then the same operation with the same arguments again: the second result
+        must go by the labels as they are now"""
+        src = self.pick(o, sem_only=True)
+        if src is None:
+            return False
+        which = ['split_obs', 'subset_obs', 'odd_even_split', 'average_by', 'split_channel', 'subset_channel'][o['a'][5] % 6]
+        axis = 'channel' if 'channel' in which else 'obs'
+        if which in ('odd_even_split', 'average_by') and src.kind != 'dataset':
+            return False
+        d = src.obj.obs_descriptors if axis == 'obs' else src.obj.channel_descriptors
+        # only the grouping descriptors of the axis itself (identity descriptors and former time labels name the items)
+        allowed = [k for k in (('cond', 'run') if axis == 'obs' else ('roi',)) if k in d and _scalar_valued(d[k])]
+        if not allowed:
+            return False
+        by = allowed[o['a'][0] % len(allowed)]
+        a0 = next((a for a in range(len(d) + 3) if self._by(d, a) == by), None)
+        if a0 is None:
+            return False
+        o = {**o, 'a': [a0] + list(o['a'][1:])}
+        cur = normlist(d[by])
+        distinct = sorted(set(cur), key=lambda x: (str(type(x)), x))
+        if len(distinct) < 2 or len({type(v) for v in cur}) != 1:
+            return False
+        fn = getattr(self, 'op_' + which)
+        o1 = {**o, 'sid': src.sid}
+        if fn(o1) is False or not src.alive or src.sem is None:
+            return False
+        f = dict(zip(distinct, distinct[::-1]))
+        new = [f[v] for v in cur]
+        d[by] = np.array(new) if isinstance(d[by], np.ndarray) else new
+        tab = self.obs_tab if axis == 'obs' else self.ch_tab
+        remap = dict(src.sem.get('remap') or {})
+        old = remap.get((axis, by)) or {}
+        labels = {norm(v[by]) for v in tab.values() if by in v}
+        remap[(axis, by)] = {L: f.get(old.get(L, L), old.get(L, L)) for L in labels}
+        src.sem = {**src.sem, 'remap': remap}
+        self.check(src, 'relabel')
+        for b in self.pool.slots:        # (an assignment to a descriptor is not among C12's documented in-place operations)
+            if b.alive and b.sid != src.sid and fp_any(b.obj) != b.snap:
+                b.snap, b.sem, b.alive = fp_any(b.obj), None, False
+                self.ctx.probe('retired_after_relabel')
+        src.snap = fp_any(src.obj)
+        self.ctx.tick('op', op='relabel', axis=axis, by=by)
+        if src.alive and src.sem is not None:
+            fn(o1)
+        self.ctx.probe('redo_after_relabel')
+
     def op_array_write_ds(self, o):
         t = self.pick(o)
         if t is None or t.obj.measurements.size == 0:
@@ -511,7 +566,8 @@ class DataOps:
             return False
         cands = [s for s in self.data(sem_only=True) if s.kind == first.kind and s.sem['cols'] == first.sem['cols']
                  and s.sem['times'] == first.sem['times'] and s.sem.get('bins') == first.sem.get('bins')
-                 and set(s.obj.obs_descriptors.keys()) == set(first.obj.obs_descriptors.keys())]
+                 and set(s.obj.obs_descriptors.keys()) == set(first.obj.obs_descriptors.keys())
+                 and (s.sem.get('remap') or {}) == (first.sem.get('remap') or {})]
         # prefer the parts of one split (siblings) so that "merge of the parts = the original rows" is exercised
         fb = getattr(first, 'batch', None)
         sib = [s for s in {x.sid: x for x in cands + [first]}.values() if getattr(s, 'batch', None) == fb and s.op.startswith('split_obs')] if fb else []
@@ -686,7 +742,7 @@ class DataOps:
             shape = 'x'.join(str(min(s, 2)) for s in src.obj.measurements.shape)
             return self._raise(f'time_as_observations[{shape}]', e)
         sem = {'rows': [(oo, t) for t in self._first_appearance(src.sem['times']) for (oo, _) in src.sem['rows']],
-               'cols': list(src.sem['cols']), 'times': None}
+               'cols': list(src.sem['cols']), 'times': None, 'remap': src.sem.get('remap')}
         self._finish('time_as_observations', [(res, sem)], [src.sid], order=('multiset', 'seq', 'seq'),
                      sig=(src.op, tuple(min(s, 2) for s in src.obj.measurements.shape)))
 
@@ -699,7 +755,7 @@ class DataOps:
         except Exception as e:
             return self._raise('time_as_channels', e)
         sem = {'rows': list(src.sem['rows']), 'cols': [(c, t) for (c, _) in src.sem['cols'] for t in src.sem['times']],
-               'times': None}
+               'times': None, 'remap': src.sem.get('remap')}
         self._finish('time_as_channels', [(res, sem)], [src.sid], order=('seq', 'multiset', 'seq'),
                      sig=(src.op, tuple(min(s, 2) for s in src.obj.measurements.shape)))
 
